@@ -391,14 +391,16 @@ def run(tier, seed):
     cov['parts']['manager scenarios'] = ecov
     tot.caps_hit = list(tot.caps_hit) + list(ecov['caps_hit'])
     cov.update({
-        'states': r.states + tot.states, 'transitions': r.transitions + tot.transitions,
-        'traces_validated_against_impl': r.transitions + tot.executions,
-        'evaluations': r.transitions + tot.executions,
-        'distinct_nontrivial': len(r.distinct_obs) + len(tot.signatures),
+        'states': r.states + tot.states + ecov['states'], 'transitions': r.transitions + tot.transitions + ecov['transitions'],
+        'traces_validated_against_impl': r.transitions + tot.executions + ecov['executions'],
+        'evaluations': r.transitions + tot.executions + ecov['executions'],
+        'distinct_nontrivial': len(r.distinct_obs) + len(tot.signatures) + ecov['distinct_outcomes'],
         'rule': 'BFS: all sequences of 13 coordinator/future operations to the depth bound, states merged on the reference state '
                 '(status, exception, result, event, pending callbacks/cleanups) - every merged state also has equal observations; '
                 'interleavings: all schedules within the preemption bound of 2-3 single-operation threads + observer, shared fields '
-                '_status/_exception/_result are scheduling points; distinct = distinct (op, outcome) / final observations',
+                '_status/_exception/_result are scheduling points; distinct = distinct (op, outcome) / final observations; '
+                'manager scenarios: cancel x fault, cancel x preemption, two faults on 7 transfer shapes with the status / exception '
+                'write timeline of the real tasks judged (terminal states absorbing except for the final success; first error wins)',
         'samples': r.samples[:2] + tot.samples[:2],
         'exhaustive': not r.caps_hit and not tot.caps_hit,
         'caps_hit': r.caps_hit + tot.caps_hit,
